@@ -127,12 +127,20 @@ Definition default_failure (d : rel_def) (v : N) : list err :=
   match rd_resolver d with
   | ToOne true f => match f v with Er e => [e] | Ok _ => [] end
   | ToMany true f _ _ => match f v with Er e => [e] | Ok _ => [] end
+  | Custom f _ _ => match f v false with Er e => [e] | Ok _ => [] end
   | _ => []
+  end.
+(** the Meta a custom resolver attaches to the relationship object must serialise *)
+Definition meta_serialises (d : rel_def) (v : N) : bool :=
+  match rd_resolver d with
+  | Custom f _ _ => match f v false with Ok rel => forallb snd (rel_meta rel) | Er _ => true end
+  | _ => true
   end.
 Definition attribute_failures (t : rtype) (v : N) : list err :=
   flat_map (fun d => match ad_resolve d v with AErr e => [e] | AVal _ => [] end) (rt_attrs t).
 Definition serialisable (t : rtype) (v : N) : bool :=
-  forallb (fun d => match ad_resolve d v with AVal false => false | _ => true end) (rt_attrs t).
+  forallb (fun d => match ad_resolve d v with AVal false => false | _ => true end) (rt_attrs t) &&
+  forallb (fun d => meta_serialises d v) (rt_rels t).
 
 Inductive built := BuiltOk (serialises : bool) | BuiltFails (candidates : list err).
 Definition build (t : rtype) (v : N) : built :=
@@ -185,11 +193,13 @@ Definition parent (t : rtype) (id : bytes) : N + list Z :=
               end
   end.
 
-(** the linkage of relationship [d] of a resource value, data requested *)
-Definition linkage_of (d : rel_def) (v : N) : result linkage :=
+(** the linkage of relationship [d] of a resource value, data requested; [Ok None]: a custom resolver
+    answered without Data although it was asked for it *)
+Definition linkage_of (d : rel_def) (v : N) : result (option linkage) :=
   match rd_resolver d with
-  | ToOne _ f => match f v with Er e => Er e | Ok None => Ok LNull | Ok (Some r) => Ok (LOne r) end
-  | ToMany _ f _ _ => match f v with Er e => Er e | Ok ids => Ok (LMany ids) end
+  | ToOne _ f => match f v with Er e => Er e | Ok None => Ok (Some LNull) | Ok (Some r) => Ok (Some (LOne r)) end
+  | ToMany _ f _ _ => match f v with Er e => Er e | Ok ids => Ok (Some (LMany ids)) end
+  | Custom f _ _ => match f v true with Er e => Er e | Ok rel => Ok (rel_data rel) end
   end.
 
 (** fetching the resources of a to-many linkage in order: unknown types and resources that are not
@@ -260,7 +270,8 @@ Definition operation_status (sch : schema) (rq : request) : string * list Z :=
               | Some d =>
                   match linkage_of d v with
                   | Er e => ("related-linkage", [status_of e])
-                  | Ok lk =>
+                  | Ok None => ("related-linkage-missing", [500])
+                  | Ok (Some lk) =>
                       if is_method m s_GET then
                         match lk with
                         | LNull => ("related-fetch", [200])
@@ -339,6 +350,9 @@ Definition operation_status (sch : schema) (rq : request) : string * list Z :=
                           | None => ("405-undefined-operation", [405])
                           | Some f => ("relationship-members", [match f v members with Er e => status_of e | Ok _ => 200 end])
                           end
+                      | Custom _ add remove =>
+                          ("relationship-members",
+                           [match (if is_method m s_POST then add else remove) v members with Er e => status_of e | Ok _ => 200 end])
                       end
                   end
               end
@@ -377,13 +391,38 @@ Definition standard_links (ty id name : bytes) : links :=
   [ (s_related, slash ++ ty ++ slash ++ id ++ slash ++ name);
     (s_self, slash ++ ty ++ slash ++ id ++ slash ++ s_relationships ++ slash ++ name) ].
 
+(** the links object of a relationship: the standard links, and over them whatever links the
+    resolver supplied (a resolver's own self / related replace the standard ones) *)
+Definition overlay (std extra : links) : links := fold_left (fun m kv => set_link (fst kv) (snd kv) m) extra std.
+
 Definition links_equal (x y : links) : bool :=
   forallb (fun kv => existsb (fun kv' => bytes_eqb (fst kv) (fst kv') && bytes_eqb (snd kv) (snd kv')) y) x &&
   forallb (fun kv => existsb (fun kv' => bytes_eqb (fst kv) (fst kv') && bytes_eqb (snd kv) (snd kv')) x) y.
 
-(** every relationship object of a resource object links to that resource's own relationship URLs *)
-Definition item_links_standard (i : witem) : bool :=
-  forallb (fun nr => links_equal (rel_links (snd nr)) (standard_links (w_type i) (w_id i) (fst nr))) (w_rels i).
+(** what a custom resolver supplied for value [v] ([requested]: the data was asked for); the
+    library's own resolvers supply nothing *)
+Definition supplied (d : rel_def) (v : N) (requested : bool) : relationship :=
+  match rd_resolver d with
+  | Custom f _ _ => match f v requested with Ok rel => rel | Er _ => no_relationship end
+  | _ => no_relationship
+  end.
+
+Definition meta_names_equal (x y : list (bytes * bool)) : bool :=
+  forallb (fun k => existsb (bytes_eqb k) (map fst y)) (map fst x) &&
+  forallb (fun k => existsb (bytes_eqb k) (map fst x)) (map fst y).
+
+(** a relationship object [nr] of the resource object (ty, id) built from value [v] of type [t]:
+    some relationship definition of that name, and exactly the standard links of THIS resource and
+    relationship overlaid with what that definition's resolver supplied for [v]; its Meta names *)
+Definition rel_object_ok (ty id : bytes) (t : rtype) (v : N) (nr : bytes * relationship) : bool :=
+  existsb (fun d => bytes_eqb (rd_name d) (fst nr) &&
+                    links_equal (rel_links (snd nr))
+                                (overlay (standard_links ty id (fst nr)) (rel_links (supplied d v false))) &&
+                    meta_names_equal (rel_meta (snd nr)) (rel_meta (supplied d v false)))
+          (rt_rels t).
+Definition item_rels_ok (t : rtype) (v : N) (i : witem) : bool :=
+  forallb (rel_object_ok (w_type i) (w_id i) t v) (w_rels i).
+
 Definition is_identifier (i : witem) : bool :=
   match w_attrs i, w_rels i with [], [] => true | _, _ => false end.
 Definition item_is (ty id : bytes) (i : witem) : bool := bytes_eqb (w_type i) ty && bytes_eqb (w_id i) id.
@@ -401,17 +440,80 @@ Fixpoint sub_identities (items : list witem) (ids : list rid) : bool :=      (* 
 Definition endpoint_linkage (t : rtype) (id name : bytes) : option linkage :=
   match parent t id with
   | inl v => match lookup_rel t name with
-             | Some d => match linkage_of d v with Ok l => Some l | Er _ => None end
+             | Some d => match linkage_of d v with Ok l => l | Er _ => None end
              | None => None
              end
   | inr _ => None
   end.
 
+(** the application's value behind the resource object that answers a request addressed to
+    resource [id] of type [t]: what Get returned (GET), what Patch returned (PATCH) *)
+Definition resource_value (rq : request) (t : rtype) (id : bytes) : option N :=
+  if is_method (rq_method rq) s_GET then
+    match rt_get t with
+    | Some g => match g id with HVal v => Some v | _ => None end
+    | None => None
+    end
+  else
+    match decode_body (dec_resource_request true) (rq_body rq), rt_patch t with
+    | Some doc, Some p => match p id (pd_attrs doc) (pd_rels doc) with HVal v => Some v | _ => None end
+    | _, _ => None
+    end.
+
+(** a resource object fetched on its own identity (members of a to-many related listing) *)
+Definition fetched_item_ok (sch : schema) (i : witem) : bool :=
+  match lookup_type sch (w_type i) with
+  | Some t' => match rt_get t' with
+               | Some g => match g (w_id i) with HVal v => item_rels_ok t' v i | _ => false end
+               | None => false
+               end
+  | None => false
+  end.
+
+(** what the relationship's resolver answered to a relationship-endpoint request: the links it
+    supplied and, for a custom resolver, the Data it returned *)
+Definition reply (d : rel_def) (r : result relationship) : links * option (option linkage) :=
+  match rd_resolver d, r with
+  | Custom _ _ _, Ok rel => (rel_links rel, Some (rel_data rel))
+  | _, _ => ([], None)
+  end.
+Definition relationship_reply (rq : request) (t : rtype) (id name : bytes) (d : rel_def) : links * option (option linkage) :=
+  match rd_resolver d with
+  | Custom f add remove =>
+      let m := rq_method rq in
+      if is_method m s_GET then
+        match parent t id with inl v => reply d (f v true) | inr _ => ([], None) end
+      else if is_method m s_PATCH then
+        match decode_body dec_relationship_data (rq_body rq), rt_patch t with
+        | Some value, Some p => match p id [] [(name, value)] with HVal v => reply d (f v true) | _ => ([], None) end
+        | _, _ => ([], None)
+        end
+      else
+        match decode_body dec_members (rq_body rq), parent t id with
+        | Some members, inl v => reply d ((if is_method m s_POST then add else remove) v members)
+        | _, _ => ([], None)
+        end
+  | _ => ([], None)
+  end.
+
+Fixpoint identities_are (items : list witem) (ids : list rid) : bool :=
+  match items, ids with
+  | [], [] => true
+  | i :: items', r :: ids' => item_is (r_type r) (r_id r) i && identities_are items' ids'
+  | _, _ => false
+  end.
+Definition data_is (od : option linkage) (data : wdata) : bool :=
+  match od, data with
+  | None, WAbsent => true
+  | Some LNull, WNull => true
+  | Some (LOne r), WOne i => item_is (r_type r) (r_id r) i
+  | Some (LMany ids), WMany l => identities_are l ids
+  | _, _ => false
+  end.
+
 (** for an answer without errors: [None] = fine *)
 Definition identity_and_links (sch : schema) (rq : request) (data : wdata) (top : links) : option string :=
   let items := match data with WOne i => [i] | WMany l => l | _ => [] end in
-  if negb (forallb item_links_standard items) then Some "relationship-links"
-  else
     let m := rq_method rq in
     match endpoint_of sch (rq_path rq) with
     | EUnknown => Some "data-for-unknown-endpoint"
@@ -422,7 +524,10 @@ Definition identity_and_links (sch : schema) (rq : request) (data : wdata) (top 
             match data with
             | WOne i => if negb (item_is (r_type r) (r_id r) i) then Some "identity"
                         else if negb (links_equal top [(s_self, slash ++ r_type r ++ slash ++ r_id r)]) then Some "self-link"
-                        else None
+                        else match fst (c (pd_attrs doc) (pd_rels doc)) with
+                             | HVal v => if item_rels_ok t v i then None else Some "relationship-links"
+                             | _ => Some "identity"
+                             end
             | _ => Some "identity"
             end
         | _, _ => Some "identity"
@@ -431,7 +536,10 @@ Definition identity_and_links (sch : schema) (rq : request) (data : wdata) (top 
         match data with
         | WOne i => if negb (item_is (rt_name t) id i) then Some "identity"
                     else if negb (links_equal top [(s_self, rq_path rq)]) then Some "self-link"
-                    else None
+                    else match resource_value rq t id with
+                         | Some v => if item_rels_ok t v i then None else Some "relationship-links"
+                         | None => Some "identity"
+                         end
         | WAbsent => if is_method m s_DELETE then None else Some "identity"
         | _ => Some "identity"
         end
@@ -441,21 +549,40 @@ Definition identity_and_links (sch : schema) (rq : request) (data : wdata) (top 
           match endpoint_linkage t id name, data with
           | Some LNull, WNull => None
           | Some (LOne r), WNull => if is_method m s_GET then None else Some "identity"
-          | Some (LOne r), WOne i => if item_is (r_type r) (r_id r) i then None else Some "identity"
-          | Some (LMany ids), WMany l => if is_method m s_GET && sub_identities l ids then None else Some "identity"
+          | Some (LOne r), WOne i =>
+              if negb (item_is (r_type r) (r_id r) i) then Some "identity"
+              else match lookup_type sch (r_type r) with
+                   | Some t' => match resource_value rq t' (r_id r) with
+                                | Some v => if item_rels_ok t' v i then None else Some "relationship-links"
+                                | None => Some "identity"
+                                end
+                   | None => Some "identity"
+                   end
+          | Some (LMany ids), WMany l =>
+              if negb (is_method m s_GET && sub_identities l ids) then Some "identity"
+              else if forallb (fetched_item_ok sch) l then None else Some "relationship-links"
           | Some (LMany _), WNull => Some "collection-null"
           | _, _ => Some "identity"
           end
     | ERelationship t id name =>
-        if negb (links_equal top (standard_links (rt_name t) id name)) then Some "relationship-links"
-        else if negb (forallb is_identifier items) then Some "identity"
-        else
-          match lookup_rel t name, data with
-          | Some d, WNull => match rd_resolver d with ToOne _ _ => None | ToMany _ _ _ _ => Some "collection-null" end
-          | Some d, WOne _ => match rd_resolver d with ToOne _ _ => None | ToMany _ _ _ _ => Some "identity" end
-          | Some d, WMany _ => match rd_resolver d with ToMany _ _ _ _ => None | ToOne _ _ => Some "identity" end
-          | _, _ => Some "identity"
-          end
+        match lookup_rel t name with
+        | None => Some "identity"
+        | Some d =>
+            let '(extra, custom_data) := relationship_reply rq t id name d in
+            if negb (links_equal top (overlay (standard_links (rt_name t) id name) extra)) then Some "relationship-links"
+            else if negb (forallb is_identifier items) then Some "identity"
+            else
+              match custom_data with
+              | Some od => if data_is od data then None else Some "identity"
+              | None =>
+                  match data with
+                  | WNull => match rd_resolver d with ToOne _ _ => None | _ => Some "collection-null" end
+                  | WOne _ => match rd_resolver d with ToOne _ _ => None | _ => Some "identity" end
+                  | WMany _ => match rd_resolver d with ToMany _ _ _ _ => None | _ => Some "identity" end
+                  | WAbsent => Some "identity"
+                  end
+              end
+        end
     end.
 
 (** ** The oracle: everything above, on what the implementation answered.
@@ -552,7 +679,7 @@ Inductive conflict (sch : schema) (rq : request) : Prop :=
     (pd_type doc <> rt_name t \/ pd_id doc <> id) -> conflict sch rq
 | K_update_related t id name v d r t' doc :
     endpoint_of sch (rq_path rq) = ERelated t id name -> rq_method rq = s_PATCH ->
-    parent t id = inl v -> lookup_rel t name = Some d -> linkage_of d v = Ok (LOne r) ->
+    parent t id = inl v -> lookup_rel t name = Some d -> linkage_of d v = Ok (Some (LOne r)) ->
     lookup_type sch (r_type r) = Some t' ->
     decode_body (dec_resource_request true) (rq_body rq) = Some doc ->
     (pd_type doc <> r_type r \/ pd_id doc <> r_id r) -> conflict sch rq.
@@ -575,7 +702,8 @@ Definition well_formed_parameter (k : bytes) : Prop :=
     members of attributes, relationships and links objects (Go map order) *)
 From Coq Require Import Permutation.
 Definition rel_equiv (x y : bytes * relationship) : Prop :=
-  fst x = fst y /\ Permutation (rel_links (snd x)) (rel_links (snd y)) /\ rel_data (snd x) = rel_data (snd y).
+  fst x = fst y /\ Permutation (rel_links (snd x)) (rel_links (snd y)) /\ rel_data (snd x) = rel_data (snd y) /\
+  Permutation (map fst (rel_meta (snd x))) (map fst (rel_meta (snd y))).
 Definition witem_equiv (x y : witem) : Prop :=
   w_type x = w_type y /\ w_id x = w_id y /\ Permutation (w_attrs x) (w_attrs y) /\
   exists l, Permutation (w_rels x) l /\ Forall2 rel_equiv l (w_rels y).
